@@ -6,7 +6,7 @@
    regenerated from /repo on every run.
    Not modelled: the wall-clock time-outs of the setters (a loop left by time-out is out of fuel). *)
 From Coq Require Import ZArith List Bool String.
-From CV Require Import Base.Val Base.Tys Gen.P402Tables Model.RefDrive Model.P402 Proofs.P402_proofs Gen.Src Proofs.Src_eq_views.
+From CV Require Import Base.Val Base.Tys Gen.P402Tables Model.RefDrive Model.P402 Proofs.P402_proofs Gen.SrcC19 Proofs.Src_eq_c19.
 Import ListNotations.
 Open Scope Z_scope.
 
@@ -99,7 +99,7 @@ Proof.
 Qed.
 
 (* Tie to the source text: the BaseNode402.state getter as translated from the CURRENT source by
-   tools/py2coq.py (Gen/Src.v, regenerated on every run), applied to the regenerated SW_MASK, is the
+   tools/py2coq.py (Gen/SrcC19.v, regenerated on every run), applied to the regenerated SW_MASK, is the
    model's decode_state. *)
 Theorem C19_source_state_getter_is_model : forall sw, src_p402_state SW_MASK sw = decode_state sw.
 Proof. exact src_p402_state_eq. Qed.
